@@ -626,3 +626,86 @@ def k3_show(ast, kind, off, hx, tag="show"):
     out = coq_eval("k3_show_" + tag, "\n".join(body))
     m = re.search(r'=\s*"(.*)"\s*:\s*string', out, re.S)
     return re.sub(r'\s*\n\s*', ' ', m.group(1)) if m else out
+
+
+# ---------------------------------------------------------------------------------------
+# K1: front end
+
+
+def regen_grammar():
+    import gen_grammar
+    t = gen_grammar.generate(REPO)
+    p = os.path.join(COQ, "theories/Model/Grammar.v")
+    if not os.path.exists(p) or open(p).read() != t:
+        with open(p, "w") as f:
+            f.write(t)
+
+
+_old_regen = regen_generated
+
+
+def regen_generated():  # noqa: F811
+    _old_regen()
+    regen_grammar()
+
+
+def coq_text(s):
+    """a Coq string term for arbitrary text (control characters and non-ASCII bytes spelled out)"""
+    b = s.encode("utf-8")
+    if all((32 <= c < 127) or c in (9, 10) for c in b):
+        return ct.cstr(s)
+    # split into printable runs and single bytes
+    parts = []
+    run = bytearray()
+    for c in b:
+        if (32 <= c < 127) or c in (9, 10):
+            run.append(c)
+        else:
+            if run:
+                parts.append(ct.cstr(run.decode("ascii")))
+                run = bytearray()
+            parts.append("(String (Ascii.ascii_of_nat %d) EmptyString)" % c)
+    if run:
+        parts.append(ct.cstr(run.decode("ascii")))
+    return "(" + " ++ ".join(parts) + ")%string"
+
+
+def k1_case(n, o):
+    tr = "None" if o["tree"] is None else "(Some %s)" % tree_term(o["tree"])
+    a = o["ast"]
+    if a["outcome"] == "ok":
+        ra = "(RAOk %s)" % ct.ast(a)
+    elif a["outcome"] == "err":
+        ra = "RAErr"
+    else:
+        ra = "(RAPanic %s)" % ct.cstr(a["site"])
+    return "(%d%%N, %s, %s, %s)" % (n, coq_text(o["text"]), tr, ra)
+
+
+def tree_term(j):
+    return "(Node %s %s %s)" % (ct.cstr(j[0]), coq_text(j[1]), ct.clist([tree_term(c) for c in j[2]]))
+
+
+def k1(observations, tag):
+    """token tree, outcome class and AST of the model's front end vs the real one"""
+    obs = list(observations)
+    shards = shard(list(enumerate(obs)), 16)
+
+    def run(sh_i):
+        si, items = sh_i
+        body = ["From XdrModel Require Import Check Walk Grammar.", "Open Scope string_scope.",
+                "Definition cases : list (N * string * option tree * real_ast) := ["]
+        body.append(";\n".join(k1_case(n, o) for n, o in items))
+        body.append("].")
+        body.append("Eval vm_compute in (k1_run cases).")
+        return parse_pairs(coq_eval("k1_%s_%d" % (tag, si), "\n".join(body)))
+
+    res = par(run, list(enumerate(shards)))
+    return len(obs), [(n, code) for r in res for n, code in r]
+
+
+def k1_show(text, tag="show"):
+    body = ["From XdrModel Require Import Check Walk Grammar.", "Open Scope string_scope.",
+            "Eval vm_compute in (parse xdr_grammar (parse_fuel %s) %s)." % (coq_text(text), coq_text(text)),
+            "Eval vm_compute in (model_ast %s)." % coq_text(text)]
+    return coq_eval("k1_show_" + tag, "\n".join(body))
